@@ -23,7 +23,7 @@ CAND4 = ["t", "r", "b", "l"]
 SEEDS_B = [(-50, -40), (2, -40), (50, -40), (-50, 1), (50, 1), (-50, 40), (2, 40), (50, 40), (5, 3), (0, 0), (20, 0), (0, 10)]
 
 
-def boxes_markup(kind_a="rect", kind_b="rect"):
+def boxes_markup(kind_a="rect", kind_b="rect"):     # (build() splits the result at the second '<' and rewrites B's xy)
     """A: vars 0-3, B: vars 4-7"""
     def one(kind, id_, k):
         if kind == "rect":
@@ -66,9 +66,17 @@ def templates(tier, seed):
                 tds.append(dict(fam="corner", s=s, e=e, off=off))
     for s, e in (("@tl", "@b"), ("plain", "@c"), ("pt", "plain"), ("@r", "pt")):
         tds.append(dict(fam="corner", s=s, e=e, off="none"))
+    # the same connectors written before / between the elements they connect (the connector has to wait for its ends), and
+    # with the second box placed relative to the first
+    ordered = []
+    for i, t in enumerate(tds):
+        if t["fam"] == "hv" or i % 5 == 0:
+            for order in ("kab", "akb", "kba", "rel-b", "rel-b-kab"):
+                ordered.append(dict(t, order=order))
     if tier == "quick":
         tds = sample_quota(tds, lambda t: (t["fam"],), {"straight": 120, "hv": 4, "corner": 260}, seed)
-    return tds
+        ordered = sample_quota(ordered, lambda t: (t["fam"], t["order"]), {"straight": 12, "hv": 2, "corner": 16}, seed)
+    return tds + ordered
 
 
 def twins(tier, seed):
@@ -145,7 +153,18 @@ def build(td, wrong=False):
             extra = f' corner-offset="{td["off"]}"'
             offinfo = ("pct", Fraction(int(td["off"][:-1]), 100))
     tag = "polyline" if fam == "corner" else "line"
-    doc = f'<svg>{bm}<{tag} id="k" start="{stxt}" end="{etxt}"{extra}/></svg>'
+    kel = f'<{tag} id="k" start="{stxt}" end="{etxt}"{extra}/>'
+    order = td.get("order", "abk")
+    if order == "abk":
+        doc = f"<svg>{bm}{kel}</svg>"
+    else:
+        i = bm.index('<', 1)
+        am, bmk = bm[:i], bm[i:]
+        if order.startswith("rel-b"):
+            # B placed at the same spot, but written relative to A's top-left corner (numerically the same box)
+            bmk = bmk.replace('xy="[[4]] [[5]]"', 'xy="#a@tl {{[[4]] - [[0]]}} {{[[5]] - [[1]]}}"')
+            order = order[6:] or "abk"
+        doc = "<svg>" + "".join({"a": am, "b": bmk, "k": kel}[c] for c in order) + "</svg>"
     cands = {"straight": CAND8, "hv": (["l", "r"] if td.get("et", "h")[0] == "h" else ["t", "b"]), "corner": CAND4}[fam]
     needs_search = sk == "plain" or ek == "plain"
     SH = "1.0" if wrong else "0.0"
@@ -256,5 +275,5 @@ def build(td, wrong=False):
                 jog = minus(outer, ov) if sd in ("l", "t") else plus(outer, ov)
                 obls.append(Obl("u-jog-beyond-outermost-end", or_(ne(pts[1][ax], jog), ne(pts[2][ax], jog))))
         return obls
-    name = f"{fam}/{td.get('s')}/{td.get('e')}/{td.get('et', '')}{td.get('off', '')}/{td.get('ka', '')}"
+    name = f"{fam}/{td.get('s')}/{td.get('e')}/{td.get('et', '')}{td.get('off', '')}/{td.get('ka', '')}" + (f"/{td['order']}" if td.get("order") else "")
     return Template(name, doc, vars_, check, family=fam, role=f"C13/{fam}", cap=40, seeds=seeds(vars_), explore=not needs_search)
